@@ -13,9 +13,25 @@ logging.disable(logging.CRITICAL)
 import numpy as np
 import bitcoinlib.wallets as bw
 from bitcoinlib.wallets import Wallet, WalletError
-from bitcoinlib.transactions import Transaction, TransactionError, Output
+from bitcoinlib.transactions import Transaction, TransactionError, Output, Input
 from bitcoinlib.keys import HDKey, Key, Address
 from bitcoinlib.db import DbTransactionOutput, DbTransaction
+
+# the sqlite files of the cases are scratch copies: no fsync per commit (durability is of no interest here; utxos_update
+# commits once per listed output)
+from sqlalchemy import event as _sa_event
+from sqlalchemy.engine import Engine as _SaEngine
+
+
+@_sa_event.listens_for(_SaEngine, 'connect')
+def _no_fsync(dbapi_con, _rec):
+    try:
+        cur = dbapi_con.cursor()
+        cur.execute('PRAGMA synchronous=OFF')
+        cur.close()
+    except Exception:
+        pass
+
 
 CWD = os.getcwd()
 SIDE = {}          # request line -> state reported to the harness for building the model request (bump cases)
@@ -27,6 +43,9 @@ class State:
     r1 = 0
     r2 = 0
     weights = []
+    accept = False      # history requests: the provider accepts broadcasts and answers with the transaction id
+    listing = []        # history requests: what the provider lists as unspent (one answer per utxos_update round)
+    bcount = 800000
 
 
 class StubService:
@@ -42,10 +61,50 @@ class StubService:
         return State.fpks[0]
 
     def blockcount(self):
-        return 800000
+        return State.bcount
 
     def sendrawtransaction(self, raw):
-        return False
+        if not State.accept:
+            return False
+        return {'txid': txid_from_raw(raw if isinstance(raw, str) else bytes(raw).hex())}
+
+    def getutxos(self, address, after_txid='', limit=20):
+        # one Service object is made per utxos_update round (per account): its first question is answered with the
+        # whole listing of that round, in listing order (every entry names its own address)
+        if getattr(self, '_served', False):
+            return []
+        self._served = True
+        return [dict(u) for u in State.listing]
+
+
+def txid_from_raw(h):
+    """transaction id of a serialised transaction (witness data stripped), computed here and not by the library"""
+    b = bytes.fromhex(h)
+    p = [4]
+
+    def rd(n):
+        x = b[p[0]:p[0] + n]
+        p[0] += n
+        return x
+
+    def vi():
+        f = rd(1)[0]
+        if f < 0xfd:
+            return f
+        return int.from_bytes(rd({0xfd: 2, 0xfe: 4, 0xff: 8}[f]), 'little')
+    segwit = b[4] == 0 and b[5] == 1
+    if segwit:
+        p[0] = 6
+    start = p[0]
+    for _ in range(vi()):
+        rd(36)
+        rd(vi())
+        rd(4)
+    for _ in range(vi()):
+        rd(8)
+        rd(vi())
+    body = b[start:p[0]]
+    return hashlib.sha256(hashlib.sha256(b[:4] + body + b[-4:]).digest()).digest()[::-1].hex()
 
 
 bw.Service = StubService
@@ -263,9 +322,428 @@ def input_arr(tok):
     return [(txid_of(int(i)), int(i) % 4) for i in tok.split(',')]
 
 
+# ------------------------------------------------------------------ histories on one wallet
+# hist <net> <wk> <pub> <bcount> <op> <op> ...     (formats: harness/props/c07.py)
+H_BASE = 1000
+HTEMPLATES = {}
+REV_IDS = {}
+
+
+def rev_ids():
+    if not REV_IDS:
+        for i in range(H_BASE):
+            REV_IDS[(txid_of(i), i % 4)] = i
+    return REV_IDS
+
+
+def template_h(net, wk, pub):
+    """template wallet for histories: receiving keys 0,1 (account 0) and 2,3 (account 1, HD wallets only), change keys
+    made in advance; pub = 1: a second wallet made from the account-0 public master key of the first (same addresses,
+    no private keys) plus the private keys of its addresses for the priv_keys argument"""
+    key = (net, wk, pub)
+    if key in HTEMPLATES:
+        return HTEMPLATES[key]
+    w_, ms, nk, nr, single = wk.split(',')
+    name = 'htmpl_%s_%s' % (net, wk.replace(',', '_'))
+    path = os.path.join(CWD, name + '.db')
+    wt = WT[w_]
+    if not (os.path.exists(path) and os.path.exists(path + '.json')):
+        if os.path.exists(path):
+            os.remove(path)
+        uri = 'sqlite:///' + path
+        if ms == '1':
+            ks = [HDKey.from_seed(bytes([i + 3]) * 32, network=net, witness_type=wt) for i in range(int(nk))]
+            keys = [ks[0]] + ks[1:int(nr)] + [k.public_master(multisig=True, witness_type=wt) for k in ks[int(nr):]]
+            w = Wallet.create(name, keys=keys, sigs_required=int(nr), cosigner_id=0, network=net, witness_type=wt, db_uri=uri)
+        elif single == '1':
+            w = Wallet.create(name, keys=Key(b'\x02' * 32, network=net), scheme='single', network=net, witness_type=wt,
+                              db_uri=uri)
+        else:
+            w = Wallet.create(name, keys=HDKey.from_seed(b'\x01' * 32, network=net, witness_type=wt), network=net,
+                              witness_type=wt, db_uri=uri)
+        info = {'addrs': [w.get_key().address], 'accts': [0], 'wifs': [], 'pubmaster': None}
+        if single != '1':
+            info['addrs'].append(w.new_key().address)
+            info['accts'].append(0)
+            w.get_keys(change=1, number_of_keys=8)
+            if ms != '1':
+                w.new_account()
+                for _ in range(2):
+                    info['addrs'].append(w.new_key(account_id=1).address)
+                    info['accts'].append(1)
+                w.get_keys(account_id=1, change=1, number_of_keys=5)
+                info['pubmaster'] = w.public_master(account_id=0).wif
+                info['wifs'] = [k.wif for k in w.keys(account_id=0, depth=w.key_depth)]
+        else:
+            info['accts'] = [0]
+        info['pubs'] = [] if ms == '1' else [w.key(a).key().public_hex for a in info['addrs']]
+        w.session.close()
+        json.dump(info, open(path + '.json', 'w'))
+    info = json.load(open(path + '.json'))
+    res = (name, path, info)
+    if pub == '1':
+        pname = name + '_pub'
+        ppath = os.path.join(CWD, pname + '.db')
+        if not os.path.exists(ppath + '.ok'):
+            if os.path.exists(ppath):
+                os.remove(ppath)
+            wp = Wallet.create(pname, keys=info['pubmaster'], network=net, witness_type=wt, db_uri='sqlite:///' + ppath)
+            a = [wp.get_key().address, wp.new_key().address]
+            assert a == info['addrs'][:2]
+            wp.get_keys(change=1, number_of_keys=8)
+            wp.session.close()
+            open(ppath + '.ok', 'w').write('1')
+        res = (pname, ppath, info)
+    HTEMPLATES[key] = res
+    return res
+
+
+_SCRIPTS = {}
+
+
+def script_of(net, address):
+    k = (net, address)
+    if k not in _SCRIPTS:
+        _SCRIPTS[k] = Output(0, address=address, network=net).lock_script.hex()
+    return _SCRIPTS[k]
+
+
+class Hist:
+    """one wallet and the adapter's own records about it"""
+
+    def __init__(self, net, wk, pub):
+        self.net, self.wk, self.pub = net, wk, pub
+        self.name, path, self.info = template_h(net, wk, pub)
+        self.cpath = os.path.join(CWD, 'hcase_%d.db' % os.getpid())
+        shutil.copyfile(path, self.cpath)
+        self.w = Wallet(self.name, db_uri='sqlite:///' + self.cpath)
+        self.ids = dict(rev_ids())          # (txid, n) -> id
+        self.addr_of = {}                   # id -> address (outputs of own transactions)
+        self.next = H_BASE
+        self.last = None                    # (tx object, account, base change index)
+        self.keyid = {}
+        self.accounts = sorted(set(self.info['accts']))
+        self._pk = None
+
+    def address(self, key):
+        a = self.info['addrs']
+        return a[key % len(a)]
+
+    def key_id(self, key):
+        if key not in self.keyid:
+            self.keyid[key] = self.w.key(self.address(key)).key_id
+        return self.keyid[key]
+
+    def priv_keys(self):
+        if self._pk is None:
+            self._pk = [HDKey.from_wif(x, network=self.net) for x in self.info['wifs']]
+        return self._pk
+
+    def reopen(self):
+        self.w.session.close()
+        self.w = Wallet(self.name, db_uri='sqlite:///' + self.cpath)
+        self.last = None
+
+    def snapshot(self):
+        r = []
+        for a in self.accounts:
+            for u in self.w.utxos(account_id=a):
+                r.append((self.ids.get((u['txid'], u['output_n']), -1), u['confirmations']))
+        return ','.join('%d:%d' % x for x in sorted(r)) or '-'
+
+    def change_scripts(self, acct):
+        w = self.w
+        if w.scheme == 'single':
+            ks = w.keys(network=self.net)
+        else:
+            ks = w.keys(account_id=acct, change=1, depth=w.key_depth, network=self.net)
+        return [script_of(self.net, k.address) for k in ks]
+
+    def own_scripts(self):
+        r = []
+        for k in self.w.keys(network=self.net, depth=None if self.w.scheme == 'single' else self.w.key_depth):
+            try:
+                r.append((script_of(self.net, k.address), k.address))
+            except Exception:
+                pass
+        return r
+
+    def labels(self, t, acct, base=None):
+        """(list of out tokens, base): change outputs are c<j>, j counted from the first change key of this transaction"""
+        ch = self.change_scripts(acct)
+        own = dict(self.own_scripts())
+        idx = [ch.index(bytes(o.lock_script).hex()) for o in t.outputs if o.change and bytes(o.lock_script).hex() in ch]
+        if base is None:
+            base = min(idx) if idx else 0
+        r = []
+        for o in t.outputs:
+            sc = bytes(o.lock_script).hex()
+            if o.change and getattr(o, '_c07_added', False):
+                d = 'c-1'            # the output WalletTransaction.bumpfee added for the value of its extra input
+            elif o.change and sc in ch:
+                d = 'c%d' % (0 if self.w.scheme == 'single' else ch.index(sc) - base)
+            elif o.change and sc in own:
+                d = 'c-1'
+            else:
+                d = 's' + sc
+            r.append('%s:%d:%d' % (d, int(o.value), 1 if o.change else 0))
+        return r, base
+
+    def record_broadcast(self, t, toks):
+        """ids for the wallet's own outputs of a transaction that was pushed; returns the 'new=' token"""
+        serial = self.next
+        self.next = serial + 2 + len(t.outputs)
+        new = []
+        for n, (o, tk) in enumerate(zip(t.outputs, toks)):
+            d = tk.split(':')[0]
+            if d[0] == 'c':
+                j = int(d[1:])
+                if -1 <= j < len(t.outputs) and (t.txid, n) not in self.ids:
+                    i = serial + 2 + j
+                    if i in self.addr_of:
+                        continue
+                    self.ids[(t.txid, n)] = i
+                    self.addr_of[i] = o.address
+                    new.append('%d:%s:%d:%d' % (i, t.txid, n, int(o.value)))
+        return ','.join(new) or '-'
+
+    def listing(self, tok, acct):
+        """provider listing / utxos= argument from id:value:conf:key items; outputs that do not exist are left out"""
+        r = []
+        if tok == '-':
+            return r
+        rev = {v: k for k, v in self.ids.items() if v >= H_BASE}
+        for s in tok.split(';'):
+            i, v, c, kk = (int(x) for x in s.split(':'))
+            if i >= H_BASE:
+                if i not in rev:
+                    continue
+                txid, n = rev[i]
+                addr = self.addr_of[i]
+            else:
+                txid, n, addr = txid_of(i), i % 4, self.address(kk)
+            r.append(dict(address=addr, script='', confirmations=c, output_n=n, txid=txid, value=v))
+        return r
+
+    def inputs(self, tok):
+        if tok == 'N':
+            return None
+        if tok == '-':
+            return []
+        r = []
+        for s in tok.split(','):
+            i, shape, kk, claim = s.split(':')
+            i = int(i)
+            rev = {v: k for k, v in self.ids.items() if v >= H_BASE}
+            txid, n = rev[i] if i in rev else (txid_of(i), i % 4)
+            kid = None if kk == 'N' else (9999 if kk == 'X' else self.key_id(int(kk)))
+            val = None if claim == 'N' else int(claim)
+            if shape == '2':
+                r.append((txid, n))
+            elif shape == '3':
+                r.append((txid, n, kid))
+            elif shape == '4':
+                r.append((txid, n, kid, val))
+            elif shape == 'a':
+                r.append((txid, n, kid, val, None, b'', '' if kk in ('N', 'X') else self.address(int(kk))))
+            else:
+                r.append(Input(txid, n, value=val or 0, network=self.net,
+                               witness_type='legacy' if self.w.witness_type == 'legacy' else 'segwit'))
+        return r
+
+    def keys_arg(self, tok):
+        if tok == '-':
+            return None
+        if tok[0] == 'i':
+            return self.key_id(int(tok[1:]))
+        return [self.key_id(int(x)) for x in tok[1:].split(',')]
+
+    def tx_answer(self, t, acct, with_vsize, base=None):
+        toks, base = self.labels(t, acct, base)
+        ii = ['%d/%d' % (self.ids.get((i.prev_txid.hex(), i.output_n_int), -1), i.sequence) for i in t.inputs]
+        new = self.record_broadcast(t, toks) if t.pushed else '-'
+        main = 'OK fee=%d change=%d vsize=%s in=%s out=%s lt=%d pushed=%d' % (
+            t.fee, t.change, ('%d' % t.vsize) if with_vsize else '-', ','.join(ii) or '-', ';'.join(toks) or '-',
+            t.locktime, 1 if t.pushed else 0)
+        try:
+            raw = t.raw_hex()
+        except Exception:
+            raw = 'ERR'
+        wch = set()
+        for a in self.accounts:
+            wch.update(self.change_scripts(a))
+        extra = 'raw=%s fpk=%s vsize=%d ver=%d wchange=%s invals=%s new=%s txid=%s inkeys=%s' % (
+            raw, t.fee_per_kb, t.vsize or 0, 1 if t.verified else 0, ','.join(sorted(wch)) or '-',
+            ','.join(str(int(i.value)) for i in t.inputs) or '-', new, t.txid,
+            ','.join(str(self.key_index(i)) for i in t.inputs) or '-')
+        return main, extra, base
+
+    def key_index(self, inp):
+        """which receiving key of the template the transaction uses to unlock this input (by public key); -1 = another
+        key of the wallet (change keys), -2 = cannot tell (multisig: several keys)"""
+        if len(inp.keys) != 1:
+            return -2
+        pubs = self.info.get('pubs') or []
+        ph = inp.keys[0].public_hex
+        return pubs.index(ph) if ph in pubs else -1
+
+
+def acct_arg(tok):
+    return None if tok == 'N' else int(tok)
+
+
+def hist_op(h, f, line, pos):
+    """one operation; returns (main, extra)"""
+    k = f[0]
+    net = h.net
+    if k in ('c', 's'):
+        # c~outs~inputs~fee~minc~maxu~k~keys~acct~lt~rbf~shuf~o1 [~o2~bc~pk~via]
+        set_oracle(f[12])
+        random.seed(hashlib.sha256((line + str(pos)).encode()).digest())
+        acct = acct_arg(f[8])
+        try:
+            outs = recipients(f[1], net)
+            kw = dict(input_key_id=h.keys_arg(f[7]), account_id=acct, fee=fee_arg(f[3]), min_confirms=int(f[4]),
+                      locktime=int(f[9]), number_of_change_outputs=int(f[6]), random_output_order=(f[11] == '1'),
+                      replace_by_fee=(f[10] == '1'))
+            if k == 'c':
+                t = h.w.transaction_create(outs, input_arr=h.inputs(f[2]), max_utxos=None if f[5] == 'N' else int(f[5]), **kw)
+            else:
+                kw['broadcast'] = f[14] == '1'
+                if f[15] == '1':
+                    kw['priv_keys'] = h.priv_keys()
+                if f[16] == 't':
+                    t = h.w.send_to(outs[0][0], outs[0][1], **kw)
+                else:
+                    t = h.w.send(outs, input_arr=h.inputs(f[2]), max_utxos=None if f[5] == 'N' else int(f[5]), **kw)
+            main, extra, base = h.tx_answer(t, acct or 0, k == 'c')
+            if k == 's':
+                h.last = (t, acct or 0, base)
+            return main, extra
+        except Exception as e:
+            return err_token(e), '-'
+    if k == 'w':
+        # w~single~targets~fee~fpk~minc~maxu~keys~acct~lt~rbf~o1~o2~bc~pk
+        set_oracle(f[11])
+        random.seed(hashlib.sha256((line + str(pos)).encode()).digest())
+        acct = acct_arg(f[8])
+        try:
+            targets = recipients(f[2], net)
+            to = targets[0][0] if f[1] == '1' else targets
+            t = h.w.sweep(to, account_id=acct, input_key_id=h.keys_arg(f[7]), max_utxos=int(f[6]), min_confirms=int(f[5]),
+                          fee_per_kb=None if f[4] == 'N' else int(f[4]), fee=fee_arg(f[3]), locktime=int(f[9]),
+                          broadcast=(f[13] == '1'), replace_by_fee=(f[10] == '1'))
+            main, extra, base = h.tx_answer(t, acct or 0, False)
+            h.last = (t, acct or 0, base)
+            return main, extra
+        except Exception as e:
+            return err_token(e), '-'
+    if k == 'u':
+        # u~via~acct~rescan~listing
+        acct = acct_arg(f[2])
+        lst = h.listing(f[4], acct)
+        try:
+            if f[1] == 'p':
+                State.listing = lst
+                n = h.w.utxos_update(account_id=acct, rescan_all=(f[3] == '1'))
+            else:
+                n = h.w.utxos_update(account_id=acct, utxos=lst, rescan_all=(f[3] == '1'))
+            return 'U %d' % n, '-'
+        except Exception as e:
+            return err_token(e), '-'
+    if k == 'a':
+        i, v, c, kk = (int(x) for x in f[1].split(':'))
+        lst = h.listing(f[1], None)
+        if not lst:
+            return 'U 0', '-'
+        u = lst[0]
+        try:
+            n = h.w.utxo_add(u['address'], u['value'], u['txid'], u['output_n'], confirmations=u['confirmations'])
+            return 'U %d' % n, '-'
+        except Exception as e:
+            return err_token(e), '-'
+    if k == 'r':
+        h.reopen()
+        return 'R', '-'
+    if k == 'b':
+        # b~farg~earg~bc
+        if h.last is None:
+            return 'NOLAST', '-'
+        t, acct, base = h.last
+        toks, _ = h.labels(t, acct, base)
+        pre = dict(ins=';'.join('%d:%d:1:0' % (h.ids.get((i.prev_txid.hex(), i.output_n_int), -1), int(i.value))
+                                for i in t.inputs) or '-',
+                   outs=';'.join(toks) or '-', fee=int(t.fee), vsize=int(t.vsize))
+        SIDE.setdefault(line, {})[str(pos)] = pre
+        was_pushed = t.pushed
+        old_txid = t.txid
+        before = set(id(o) for o in t.outputs)
+        try:
+            t.bumpfee(fee=int(f[1]), extra_fee=int(f[2]), broadcast=(f[3] == '1'))
+        except Exception as e:
+            h.last = None
+            return err_token(e), 'prefee=%d' % pre['fee']
+        for o in t.outputs:
+            if id(o) not in before:
+                o._c07_added = True
+        if was_pushed:
+            # the wallet has dropped the replaced transaction: its outputs do not exist any more
+            for key in [x for x in h.ids if x[0] == old_txid]:
+                h.addr_of.pop(h.ids.pop(key), None)
+        toks, _ = h.labels(t, acct, base)
+        pushed_now = f[3] == '1' and t.pushed and not t.error
+        pre['sg'] = 1 if t.verified else 0
+        new = h.record_broadcast(t, toks) if pushed_now else '-'
+        ii = ['%d' % h.ids.get((i.prev_txid.hex(), i.output_n_int), -1) for i in t.inputs]
+        main = 'OK fee=%d in=%s out=%s pushed=%d' % (t.fee, ','.join(ii) or '-', ';'.join(toks) or '-', 1 if pushed_now else 0)
+        try:
+            raw = t.raw_hex()
+        except Exception:
+            raw = 'ERR'
+        wch = set(sc for sc, _ in h.own_scripts())
+        extra = 'raw=%s prefee=%d ver=%d wchange=%s invals=%s new=%s txid=%s' % (
+            raw, pre['fee'], 1 if t.verified else 0, ','.join(sorted(wch)) or '-',
+            ','.join(str(int(i.value)) for i in t.inputs) or '-', new, t.txid)
+        if was_pushed and not pushed_now:
+            h.last = None
+        return main, extra
+    return 'BADOP', '-'
+
+
+def hist(t, line):
+    net, wk, pub = t[1], t[2], t[3]
+    State.bcount = int(t[4])
+    State.accept = True
+    h = Hist(net, wk, pub)
+    mains, extras = [], []
+    try:
+        for pos, op in enumerate(t[5:]):
+            try:
+                m, x = hist_op(h, op.split('~'), line, pos)
+            except Exception as e:
+                m, x = 'CRASH %s %s' % (type(e).__name__, str(e)[:80].replace('\n', ' ').replace(' @ ', ' ')), '-'
+            try:
+                snap = h.snapshot()
+            except Exception as e:
+                snap = 'ERR'
+            mains.append(m + ' U=' + snap)
+            extras.append(x)
+    finally:
+        State.accept = False
+        State.bcount = 800000
+        State.listing = []
+        try:
+            h.w.session.close()
+        except Exception:
+            pass
+    return ' @ '.join(mains) + ' | ' + ' @ '.join(extras)
+
+
 def dispatch(t):
     k = t[0]
     line = ' '.join(t)
+    if k == 'hist':
+        return hist(t, line)
     if k == 'calcfee':
         tx = Transaction(network=t[1])
         tx.vsize = int(t[2])
@@ -372,16 +850,43 @@ def work(line):
     return r, dict(SIDE)
 
 
+def make_templates(job):
+    kind, net, wk = job
+    if kind == 'h':
+        template_h(net, wk, '0')
+        if wk.split(',')[1] == '0' and wk.split(',')[4] == '0':
+            template_h(net, wk, '1')
+    else:
+        template(net, wk)
+    return 0
+
+
 def main():
     lines = [l for l in sys.stdin.read().split('\n') if l.strip()]
-    # template wallets are created once, before the workers fork; every case copies one of them
+    # template wallets are created once (in parallel: one sqlite file each), before the workers fork; every case copies one
+    need = []
     for l in lines:
         t = l.split(' ')
-        if t[0] in ('create', 'send', 'sweep', 'bump'):
-            template(t[2], t[3])
+        if t[0] == 'hist':
+            need.append(('h', t[1], t[2], t[3]))
+        elif t[0] in ('create', 'send', 'sweep', 'bump'):
+            need.append(('t', t[2], t[3], ''))
         elif t[0] == 'select':
-            template(t[1], t[2])
+            need.append(('t', t[1], t[2], ''))
+    need = sorted(set(need))
     nproc = int(os.environ.get('C07_WORKERS', '0') or 0) or max(1, min(8, (os.cpu_count() or 2) // 2))
+    if nproc > 1 and len(need) > 2:
+        import multiprocessing as mp
+        with mp.get_context('fork').Pool(nproc) as pool:
+            # the pub variant is derived from the private template of the same kind: one job per kind
+            pool.map(make_templates, sorted(set((a, b, c) for (a, b, c, d) in need)), chunksize=1)
+    for (kind, net, wk, pub) in need:
+        if kind == 'h':
+            template_h(net, wk, '0')
+            if pub == '1':
+                template_h(net, wk, '1')
+        else:
+            template(net, wk)
     side = {}
     out = sys.stdout
     if nproc > 1 and len(lines) > 20:
